@@ -386,7 +386,7 @@ func c17Run(c c17Case) error {
 	return nil
 }
 
-var fileWordPool = []string{"zanzibar", "quokka", "Quokka", "fjord", "xylem", "vivid", "jazzy", "kiwi", "Zebu", "mmm", "été", "ñu", "x", "yy", "42", "don't"}
+var fileWordPool = []string{"100%", "%d", "a%sb", "50%%", "zanzibar", "quokka", "Quokka", "fjord", "xylem", "vivid", "jazzy", "kiwi", "Zebu", "mmm", "été", "ñu", "x", "yy", "42", "don't"}
 
 func c17Gen(t *rapid.T) c17Case {
 	var c c17Case
